@@ -127,7 +127,7 @@ class History:
         self.nft = (r.choice([(0, 0), (NFTC, 0), (SFTPAY, 5), (self.pay_tok, 0), (LP, 0) if r.random() < 0.5 else (NFTC, 0)]), self.amount())
         if self.nft[0] == (SFTPAY, 5):
             self.nft = (self.nft[0], r.choice([1, 2, 7, 100]))
-        self.total_nfts = r.randint(1, 4)
+        self.total_nfts = r.choice([1, 1, 2, 2, 3, 4])       # mostly fewer NFTs than entrants
         self.lock = (r.choice([1, 2500, 5000, 9999, 10000]), r.choice([self.epoch + 1, 20, 40]), 30)
         lp = LP
         bad = r.random() < 0.04
@@ -358,6 +358,8 @@ class History:
             self.call(OWNER, ['setSchedule1'] + r.choice([
                 [self.claim, 10000, 0, 0, 0], [self.claim, 2500, 3, 2500, 10], [self.claim + 5, 0, 4, 2500, 7],
                 [self.claim, 1000, 9, 1000, 1], [self.claim, 3334, 2, 3333, 20]]))
+        if v == 'gt2' and r.random() < 0.5:
+            self.schedule2(OWNER)          # a random (possibly odd) schedule first; a good one usually follows
         if v == 'gt2' and r.random() < 0.75:
             self.call(OWNER, ['setSchedule2'] + r.choice([
                 [1, self.claim, 10000], [2, self.claim, 5000, self.claim + 20, 5000],
@@ -605,7 +607,7 @@ class History:
                 self.probe()
         if v in NFTV:
             for u in self.users:
-                if self.confirmed(u) > 0 and r.random() < r.choice([0.2, 0.6]):
+                if self.confirmed(u) > 0 and r.random() < r.choice([0.2, 0.6, 0.9]):
                     self.confirm_nft(u, True)
             if r.random() < 0.6:
                 self.blacklist_ops()
